@@ -576,7 +576,9 @@ fn check_word(alpha: &[u8], s: &[u8]) -> Result<(), String> {
 
 fn lcs_fields(ms: &[(u32, u32)], k: usize) -> String {
     let r = sparse::lcskpp(ms, k);
-    format!("score={} path={}", r.score, join(&r.path, ","))
+    // dp_vector: one (score, predecessor) cell per match (the vector is allocated with one slot per event)
+    let dp: Vec<u32> = r.dp_vector.iter().take(ms.len()).map(|c| c.0).collect();
+    format!("score={} path={} dp={}", r.score, join(&r.path, ","), join(&dp, ","))
 }
 
 fn sdp_fields(ms: &[(u32, u32)], k: usize, msc: u32, go: i32, ge: i32) -> String {
